@@ -77,6 +77,10 @@ class TraceStoreEngine:
             ex = self.execution_around(cur, at)
             step = ex[-1]
             text, facts = describe(ex, step)
+            fault = next((e.get('fault') for e in ex if e.get('ev') == 'reset' and e.get('fault')), None)
+            if fault:
+                text = 'fault %s: %s' % (fault, text)
+                facts['fault'] = fault
             payload = dict(kind='store-trace', verdict=text, execution=ex)
             kf = match_known(prop, facts)
             if kf:
